@@ -306,9 +306,11 @@ def whitener_error(ctx, e, X, P, Y, alpha, dask, cond, scale):
 
 
 # ---------------------------------------------------------------- oracle runs
-def run_whitener_oracles(ctx, rng, N):
+def run_whitener_oracles(ctx, rng, N, ladder=True):
     conds = [1.0, 1e1, 1e2, 1e3, 1e4, 1e5, 1e6]
     scales = [1.0, 1.0, 1.0, 1.0, 1e3, 1e6, 1e-3, 1e-6, 1e-9]
+    # first a plain ladder of data scales (real, numpy, well conditioned): the property does not depend on the units of X
+    fixed = [(20, 3, 10.0, sc, al) for sc in (1.0, 1e-4, 1e-8, 1e4) for al in ((0, 1), (1, 2))] if ladder else []
     for i in range(N):
         cplx = (i % 3 == 2)
         dask = (i % 4 == 1)
@@ -318,6 +320,9 @@ def run_whitener_oracles(ctx, rng, N):
         a, b = ALPHAS[i % len(ALPHAS)]
         alpha = a / b
         scale = float(scales[int(rng.integers(0, len(scales)))])
+        if i < len(fixed):
+            n, p, cond, scale, (a, b) = fixed[i]
+            alpha, cplx, dask = a / b, False, False
         X = gen_matrix(rng, n, p, cond, cplx, scale)
         m = int(rng.integers(1, 4))
         P = rnd(rng, p, m, cplx)
@@ -539,7 +544,7 @@ def search(ctx):
     """a tie is broken but no input failed yet: widen the oracle run"""
     C.setup_impl_env()
     rng = ctx.rng.child("c16search").np
-    run_whitener_oracles(ctx, rng, 600)
+    run_whitener_oracles(ctx, rng, 600, ladder=False)
     run_pca_oracles(ctx, rng, 300)
 
 
